@@ -16,7 +16,7 @@ pub fn prop() -> Prop {
         id: "C13",
         run,
         max_len: 700,
-        quick: 60_000,
+        quick: 120_000,
         thorough: 2_000_000,
         rule: "choice sequence -> envelope with every subject case (leaf, known value, wrapped, assertion, node, already compressed, elided, encrypted) carrying a payload of a generated class (highly compressible 200-2000 B text, incompressible random bytes stored raw, empty string, tiny) x {compress, compress_subject} x {uncompress, uncompress_subject}, twice-compress, a compressed element used as the subject of further assertions and then uncompressed; faults: Compressed::from_uncompressed_data(bytes(A), digest(B)) for A != B, and CBOR surgery on a valid compressed element (bit flip in the data / checksum, size field changed, data truncated, digest bit flip), bare and as subject of a node. oracle: the compressed form has the specification digest and the harness-predicted bytes; uncompress(compress(e)) is byte-identical and is_identical_to e; compress twice is byte-identical; uncompress_subject(C + assertions) equals the model node Node(e, assertions) with the digest unchanged; every fault gives Err or an envelope whose harness-recomputed digest equals the declared digest — never another envelope, never a panic. non-trivial: subject is not a plain leaf, or a fault case decoded; distinct by FNV-64 of (encoding, payload class)",
         assumptions: &["a fault is allowed to leave the content intact (e.g. a changed size field): Err is not demanded, only 'never a different envelope'", "miniz deflate/inflate are correct"],
@@ -193,6 +193,35 @@ pub fn run(data: &[u8], ctx: &mut Ctx) -> Outcome {
         let r = nopanic!(ctx, e.uncompress_subject(), "not-compressed", "C13/not-compressed");
         let r = tryp!(ctx, r.map_err(|x| x.to_string()), "not-compressed", "C13/not-compressed");
         check!(ctx, r.to_cbor_data() == orig_bytes, "not-compressed", "C13/not-compressed", "uncompress_subject changed an envelope whose subject is not compressed");
+    }
+
+    // --- Compress action on an inner element: the compressed element, taken out, uncompresses to exactly
+    // the element it replaced
+    {
+        let els = m.elements();
+        let pick = els[src.below(els.len())];
+        if !pick.is_obscured() && pick.digest() != m.digest() {
+            let pd = pick.digest();
+            let t: std::collections::BTreeSet<crate::model::D32> = [pd].into_iter().collect();
+            let r = nopanic!(ctx, e.elide_removing_set_with_action(&bridge::to_hashset(&t), &ObscureAction::Compress), "inner", "C13/inner");
+            check!(ctx, r.digest() == e.digest(), "inner", "C13/inner/digest", "compressing an inner element changed the root digest");
+            let found: std::cell::RefCell<Option<Envelope>> = std::cell::RefCell::new(None);
+            let visitor = |env: Envelope, _l: usize, _e: EdgeType, _p: Option<()>| -> Option<()> {
+                if env.is_compressed() && d32(&env.digest()) == pd && found.borrow().is_none() {
+                    *found.borrow_mut() = Some(env);
+                }
+                None
+            };
+            r.walk(false, &visitor);
+            if let Some(c_el) = found.into_inner() {
+                let u = nopanic!(ctx, c_el.uncompress(), "inner", "C13/inner");
+                let u = tryp!(ctx, u.map_err(|x| format!("an element compressed by the Compress action does not uncompress: {}", x)), "inner", "C13/inner/uncompress");
+                let um = tryp!(ctx, bridge::read_out(&u), "readout", "C13/readout");
+                let forms: Vec<&M> = els.iter().filter(|x| x.digest() == pd).cloned().collect();
+                check!(ctx, forms.iter().any(|f| agree(&um, f).is_ok()), "inner", "C13/inner/identical", "uncompressing an inner element compressed by the action gives {} which is none of the original elements with that digest ({})", um.show(), pick.show());
+                ctx.class("inner-element-compressed");
+            }
+        }
     }
 
     // --- faults
